@@ -29,7 +29,10 @@ def mpf(x):
     return m.mpf(f.numerator) / m.mpf(f.denominator)
 
 
-def close_mp(x, ref, rel=1e-9):
+VALUE_BAND = 1e-11     # 'within floating-point rounding': ~100x the largest deviation measured on the pinned tree (ACOSH near 1: 1e-13)
+
+
+def close_mp(x, ref, rel=VALUE_BAND):
     if not finite(x):
         return False
     m = mp()
@@ -132,11 +135,17 @@ class Check(FormulaCheck):
         if abs(ref) > m.mpf(10) ** 300:
             rec.count('skipped.overflow')
             return
-        self.expect('C16/%s:value%s' % (fn, '' if how == 'number' else ':' + how), close_mp(g, ref), x=v, got=g, expected=float(ref))
+        ok = self.expect('C16/%s:value%s' % (fn, '' if how == 'number' else ':' + how), close_mp(g, ref), x=v, got=g, expected=float(ref))
+        if ok:
+            dev = float(abs(mpf(g) - ref) / max(1, abs(ref)))
+            if dev > self.maxdev.get(fn, 0.0):
+                self.maxdev[fn] = dev
 
     def c_functions(self, spec, rec):
         rnd = self.rng(spec)
         self.textform = spec['i']
+        self.maxdev = {}
+        rec.series['maxdev.%d' % spec['i']] = self.maxdev
         T = table()
         m = mp()
         for _ in range(spec['n']):
@@ -281,9 +290,18 @@ class Check(FormulaCheck):
         self.expect('C16/RAND-not-random', len(seen) > spec['n'] // 2, distinct=len(seen))
         rec.sample({'formula': 'RANDBETWEEN(v_a,v_b)'})
 
+    def extra(self, merged):
+        worst = {}
+        for k, v in merged['series'].items():
+            if k.startswith('maxdev.'):
+                for fn, d in v.items():
+                    worst[fn] = max(worst.get(fn, 0.0), d)
+        return {'largest_accepted_deviation_relative_to_max(1,|ref|)': {k: float('%.3g' % v) for k, v in sorted(worst.items())}}
+
     def c_sentinels(self, spec, rec):
         ev = self.ev
         self.textform = 0
+        self.maxdev = {}
         for f, ref in (('SQRT("1e+20")', 1e10), ('ABS("6.02E+23")', 6.02e23), ('LN("1e-7")', math.log(1e-7)), ('ABS("+3")', 3), ('ABS(" 12 ")', 12), ('POWER("1E+2","5e-1")', 10),
                        ('PV("5e-2","1e+1","-1e+2")', 772.1734929184813)):
             g = ev(f)
